@@ -2,6 +2,7 @@ package props
 
 import (
 	"fmt"
+	"regexp"
 	"sort"
 	"strings"
 
@@ -321,6 +322,9 @@ func execC11(ctx *Ctx, in *Input) *Result {
 				continue
 			}
 			if u.CompErr != "" {
+				if m := undefinedConstRe.FindStringSubmatch(u.CompErr); m != nil && isTokenName(sc.Spec, m[1]) {
+					return fail("constant-missing", "the generated file defines no constant for token %s:\n%s", m[1], firstLines(u.CompErr, 3))
+				}
 				if strings.Contains(u.CompErr, "duplicate case") || strings.Contains(u.CompErr, "redeclared") {
 					return fail("generated-file-duplicate-definition", "the generated file does not compile because a token code or constant is defined twice:\n%s", firstLines(u.CompErr, 4))
 				}
@@ -331,6 +335,9 @@ func execC11(ctx *Ctx, in *Input) *Result {
 			if jr == nil || jr.Err != "" {
 				res.Count("skipped_not_loaded(C16)", 1)
 				continue
+			}
+			if jr.ConstsErr != "" {
+				return fail("constant-missing", "reading the token constants of the generated file failed: %s", jr.ConstsErr)
 			}
 			// constants: every named token, with its code
 			known := knownTerms(sc.Spec)
@@ -344,6 +351,11 @@ func execC11(ctx *Ctx, in *Input) *Result {
 				}
 				if c != codeOf[t.Name] {
 					return fail("constant-wrong-code", "constant %s = %d but the token's code is %d", t.Name, c, codeOf[t.Name])
+				}
+			}
+			if sc.Spec.EOFAlias != "" {
+				if c, ok := jr.Consts[sc.Spec.EOFAlias]; !ok || c != -1 {
+					return fail("end-marker-alias-constant", "the token %s was declared with number -1 (alias of the end marker) but its constant is %d (defined: %v)", sc.Spec.EOFAlias, c, ok)
 				}
 			}
 			// translate: every code -> its own symbol; -1 -> end marker; any other integer -> the error column (symbol 0)
@@ -372,6 +384,20 @@ func execC11(ctx *Ctx, in *Input) *Result {
 		res.Sample = map[string]any{"tokens_of_first_grammar": tokenDecls(in.Specs[0]), "grammars": len(in.Specs), "schedules": len(in.Scheds), "variants": fmt.Sprint(variants)}
 	}
 	return res
+}
+
+var undefinedConstRe = regexp.MustCompile(`undefined: ([A-Za-z_][A-Za-z0-9_]*)`)
+
+func isTokenName(s *wl.Spec, n string) bool {
+	if s.EOFAlias == n {
+		return true
+	}
+	for _, t := range s.Terms {
+		if t.Name == n {
+			return true
+		}
+	}
+	return false
 }
 
 func tokenDecls(s *wl.Spec) string {
